@@ -15,6 +15,8 @@ RULE = ("cases = nonlinear-function class/form x D x every N of a contiguous ran
         "fraction); non-trivial = retained band contains at least one non-constant mode and the reference is non-zero")
 REQUIRED = {"alias_free": {"quick": 200, "thorough": 1500}, "outside_band": {"quick": 200, "thorough": 1500}, "band_cutoff": {"quick": 100, "thorough": 500}}
 ASSUMPTIONS = ["quadratic terms judged with fraction 2/3 and 1/2, cubic terms with 1/2 only (as the property states)", "float64 session"]
+AMBIENT = True            # thorough tier: the repository's own test-suite runs under the alias-free monitor (rv/ambient.py)
+REQUIRED_AMBIENT = {'ambient_alias_free': 100}
 TIMEOUT = {"quick": 900, "thorough": 3000}
 EPS = np.finfo(float).eps
 
